@@ -39,7 +39,7 @@ package wal
 //@   trusted binary.Read of 8 little-endian bytes (reflection inside encoding/binary)
 //@   ensures result1 == nil ==> ghost(consumed, r) == old(ghost(consumed, r)) + 8
 //@   ensures ghost(consumed, r) < 4611686018427387904
-//@   modifies ghost(consumed, r)
+//@   modifies ghost(consumed, r), ghost(reads, r)
 
 //@ extern (*github.com/youzan/ZanRedisDB/wal/walpb.Record).Unmarshal func(m *Record, dAtA []byte) error
 //@   modifies m.Type, m.Crc, m.Data
@@ -54,14 +54,14 @@ package wal
 //@   ensures result == nil ==> len(d.brs) >= 1 && brsOK(d) && 0 <= d.lastValidOff && d.lastValidOff < 4611686018427387904
 //@   ensures result == nil ==> len(d.brs) <= old(len(d.brs))
 //@   ensures d.crc == old(d.crc)
-//@   modifies d.brs, d.lastValidOff, rec.Type, rec.Crc, rec.Data, ghost(crcsum, d.crc), ghost(consumed, _)
+//@   modifies d.brs, d.lastValidOff, rec.Type, rec.Crc, rec.Data, ghost(crcsum, d.crc), ghost(consumed, _), ghost(reads, _)
 
 //@ func (d *decoder) decode(rec *walpb.Record) error
 //@   requires d != nil && rec != nil && 0 <= d.lastValidOff && d.lastValidOff < 4611686018427387904
 //@   requires brsOK(d)
 //@   ensures result == nil ==> len(d.brs) >= 1 && brsOK(d) && 0 <= d.lastValidOff && d.lastValidOff < 4611686018427387904
 //@   ensures d.crc == old(d.crc)
-//@   modifies d.brs, d.lastValidOff, rec.Type, rec.Crc, rec.Data, ghost(crcsum, d.crc), ghost(consumed, _)
+//@   modifies d.brs, d.lastValidOff, rec.Type, rec.Crc, rec.Data, ghost(crcsum, d.crc), ghost(consumed, _), ghost(reads, _)
 
 //@ func (d *decoder) isTornEntry(data []byte) bool
 //@   requires d != nil && 0 <= d.lastValidOff && d.lastValidOff < 4611686018427387904
